@@ -594,3 +594,105 @@ func GenCaseC03(r *hx.RNG) *Case {
 	}
 	return c
 }
+
+// GenStructuredC03: programs of the shape [local answer?] [redirect?] cache
+// [redirect?] [local answer?] [ecs/fwdopt?] forward [ttl?] with queries for a
+// few names and one type, so that cache hits, redirect nesting and responses
+// that exist before a redirect or a cache are frequent.
+func GenStructuredC03(r *hx.RNG) *Case {
+	var xs []XDesc
+	var ws []WDesc
+	var rules []TRule
+	addX := func(d XDesc, ms ...TMatch) {
+		xs = append(xs, d)
+		rules = append(rules, TRule{Ms: ms, Kind: "exec", Arg: len(xs) - 1})
+	}
+	addW := func(d WDesc) {
+		ws = append(ws, d)
+		rules = append(rules, TRule{Kind: "wrap", Arg: len(ws) - 1})
+	}
+	local := func() {
+		var ms []TMatch
+		if r.Chance(1, 3) {
+			ms = []TMatch{{Neg: true, ID: 0}}
+		}
+		switch r.Intn(3) {
+		case 0:
+			addX(GenHosts(r), ms...)
+		case 1:
+			addX(GenArbitrary(r), ms...)
+		default:
+			addX(GenBlackHole(r), ms...)
+		}
+	}
+	if r.Chance(1, 2) {
+		local()
+	}
+	if r.Chance(1, 2) {
+		addW(GenRedirect(r))
+	}
+	if r.Chance(5, 6) {
+		addW(WDesc{Kind: "cache"})
+	}
+	if r.Chance(1, 2) {
+		addW(GenRedirect(r))
+	}
+	if r.Chance(1, 4) {
+		addW(WDesc{Kind: "cache"})
+	}
+	if r.Chance(1, 3) {
+		local()
+	}
+	if r.Chance(1, 4) {
+		if r.Bool() {
+			addW(GenEcs(r))
+		} else {
+			addW(GenFwdOpt(r))
+		}
+	}
+	if r.Chance(5, 6) {
+		if r.Chance(1, 2) {
+			addX(XDesc{Kind: "forward", Up: 0}, TMatch{Neg: true, ID: 0})
+		} else {
+			addX(XDesc{Kind: "forward", Up: 0})
+		}
+	}
+	if r.Chance(1, 3) {
+		addX(GenTTL(r))
+	}
+	if len(rules) == 0 {
+		local()
+	}
+	c := &Case{Xs: xs, Ws: ws, Prog: []TSeq{{Name: 0, Rules: rules}}}
+	// cacheable answers mostly
+	for j := r.Range(1, 3); j > 0; j-- {
+		t := GenTemplate(r, ScriptOpts{})
+		if r.Chance(2, 3) {
+			t.Fail, t.Rcode = false, 0
+			t.Flags &^= 1 << 9
+			for _, rr := range append(append(append([]dns.RR{}, t.Answer...), t.Ns...), t.Extra...) {
+				if rr.Header().Ttl < 100 {
+					rr.Header().Ttl = 300
+				}
+			}
+			if t.Opt != nil && t.Rcode > 15 {
+				t.Rcode = 0
+			}
+		}
+		c.Scripts = append(c.Scripts, nil)
+		c.Scripts[0] = append(c.Scripts[0], t)
+	}
+	c.Scripts = c.Scripts[:1]
+	n := r.Range(3, 6)
+	qt := hx.Pick(r, []uint16{1, 1, 28})
+	for i := 0; i < n; i++ {
+		q := GenQuery(r, QueryOpts{})
+		q.Msg.Question[0] = dns.Question{Name: NameTable[r.Intn(4)], Qtype: qt, Qclass: 1}
+		q.Msg.Opcode = 0
+		if r.Chance(3, 4) {
+			q.Msg.AuthenticatedData, q.Msg.CheckingDisabled = false, false
+		}
+		c.Queries = append(c.Queries, q)
+	}
+	return c
+}
